@@ -216,9 +216,19 @@ def run(ctx, col: Collector):
                     continue
                 pats = [c.args[0] for ev in path if ev.kind == 'test' and ev.outcome is True for c in ast.walk(ev.node)
                         if isinstance(c, ast.Call) and norm(c.func) in ('re.fullmatch', 're.match') and len(c.args) == 2 and norm(c.args[1]) == p0]
+                full = any(isinstance(c, ast.Call) and norm(c.func) == 're.fullmatch' for ev in path if ev.kind == 'test' and ev.outcome is True for c in ast.walk(ev.node))
+                # a pattern compiled once at module level: NAME.fullmatch(p)
+                from .c13 import module_patterns
+                mpats = module_patterns(idx, hf.module)
+                for ev in path:
+                    if ev.kind == 'test' and ev.outcome is True:
+                        for c in ast.walk(ev.node):
+                            if isinstance(c, ast.Call) and isinstance(c.func, ast.Attribute) and c.func.attr in ('fullmatch', 'match') and isinstance(c.func.value, ast.Name) \
+                                    and c.func.value.id in mpats and len(c.args) == 1 and norm(c.args[0]) == p0:
+                                pats.append(ast.Constant(value=mpats[c.func.value.id]))
+                                full = full or c.func.attr == 'fullmatch'
                 if not pats:
                     continue
-                full = any(isinstance(c, ast.Call) and norm(c.func) == 're.fullmatch' for ev in path if ev.kind == 'test' and ev.outcome is True for c in ast.walk(ev.node))
                 nb += 1
                 cons = f'{hf.qualname}:bare-pattern'
                 pc = pats[0]
